@@ -109,6 +109,10 @@ def leaf(rng, ints_only=False):
     if r < 0.45 or ints_only and r < 0.8:
         return ('num', 'int', str(rng.choice(PRIMES)), '')
     if r < 0.55 and not ints_only:
+        if _ERRS[0] and rng.random() < 0.25:
+            # a decimal that is no dyadic fraction: its value is the nearest double (trees above it are judged with a tolerance,
+            # the literal alone and comparisons of such literals exactly)
+            return ('num', 'dec', str(rng.randrange(0, 40)), '%02d' % rng.randrange(1, 100))
         return ('num', 'dec', str(rng.choice(PRIMES)), rng.choice(['5', '25', '125', '0', '75']))
     if r < 0.60 and not ints_only:
         return ('num', 'dot', '', rng.choice(['5', '25', '125']))
@@ -122,6 +126,13 @@ def leaf(rng, ints_only=False):
     if rng.random() < 0.5:
         lab = lab.lower()
     return ('cell', lab)
+
+
+def blank_leaf(rng):
+    """a blank-valued operand (the NULL variable, a cell nobody fills), half of the time in redundant parentheses: under + - * /
+    it counts as 0, under & as the empty text, in a comparison as the zero of the other side's kind"""
+    t = ('var', ['NULL']) if rng.random() < 0.5 else ('cell', rng.choice(['Z9', 'z9', '$Y$8']))
+    return ('cmp', t) if rng.random() < 0.5 else t
 
 
 def gen_num(rng, depth, ints_only=False):
@@ -138,6 +149,8 @@ def gen_num(rng, depth, ints_only=False):
     ops = ['+', '-', '*'] if ints_only else ['+', '-', '*', '/']
 
     def operand():
+        if _ERRS[0] and rng.random() < 0.04:
+            return blank_leaf(rng)
         if not ints_only and rng.random() < 0.05:
             # a parenthesised concatenation as an operand of + - * /: the joined digits (with the sign of the left part)
             # are numeric text, which arithmetic reads as that number (only there: -"12" and "12">3 are other matters)
@@ -208,6 +221,10 @@ def equal_twin(rng, t):
 
 def gen_cmp(rng, depth):
     op = rng.choice(['=', '<>', '<', '>', '<=', '>='])
+    if _ERRS[0] and rng.random() < 0.04:
+        sides = [blank_leaf(rng), gen_num(rng, depth) if rng.random() < 0.8 else blank_leaf(rng)]
+        rng.shuffle(sides)
+        return ('bin', op, sides[0], sides[1])
     l = gen_num(rng, depth)
     if rng.random() < 0.3:
         r = equal_twin(rng, l)
@@ -223,9 +240,14 @@ def gen_top(rng, depth):
     if r < 0.85:
         return gen_cmp(rng, depth - 1)
     n = rng.randrange(2, 5)
-    t = ('amparg', gen_num(rng, max(0, depth - 2), True))
+
+    def part():
+        if _ERRS[0] and rng.random() < 0.1:
+            return blank_leaf(rng)
+        return ('amparg', gen_num(rng, max(0, depth - 2), True))
+    t = part()
     for _ in range(n - 1):
-        t = ('bin', '&', t, ('amparg', gen_num(rng, max(0, depth - 2), True)))
+        t = ('bin', '&', t, part())
     return t
 
 
@@ -348,10 +370,11 @@ def exact(t):
         form, a, b = t[1], t[2], t[3]
         if form == 'int':
             return Fraction(int(a))
+        # a decimal literal denotes the double nearest to the number it spells (float(Fraction) rounds correctly)
         if form == 'dec':
-            return Fraction(int(a)) + Fraction(int(b), 10 ** len(b))
+            return Fraction(float(Fraction(int(a)) + Fraction(int(b), 10 ** len(b))))
         if form == 'dot':
-            return Fraction(int(b), 10 ** len(b))
+            return Fraction(float(Fraction(int(b), 10 ** len(b))))
         if form == 'pct':
             return Fraction(int(a), 100)
         if form == 'pow':
@@ -359,11 +382,14 @@ def exact(t):
     if k == 'var':
         if t[1][0] in ERRVARS:
             raise ErrVal(ERRVARS[t[1][0]])
+        if t[1][0] == 'NULL':
+            return None
         return Fraction(VARS[t[1][0]])
     if k == 'cell':
         for lab, v in CELLS.items():
             if lab.upper() == t[1].upper():
                 return Fraction(v)
+        return None          # a cell nobody fills: blank
     if k == 'call':
         return exact(t[3][0])
     if k == 'neg':
@@ -375,6 +401,14 @@ def exact(t):
         b = exact(t[3])
         if op == '&':
             return text(a) + text(b)
+        if op in ('=', '<>', '<', '>', '<=', '>='):
+            # a blank compares as the zero of the other side's kind (two blanks are equal)
+            if a is None and b is None:
+                a = b = Fraction(0)
+            elif a is None:
+                a = False if isinstance(b, bool) else Fraction(0)
+            elif b is None:
+                b = False if isinstance(a, bool) else Fraction(0)
         if op in ('=', '<>', '<', '>', '<=', '>=') and (isinstance(a, bool) != isinstance(b, bool)):
             # C07: every number is less than every logical
             a, b = (Fraction(1), Fraction(0)) if isinstance(a, bool) else (Fraction(0), Fraction(1))
@@ -394,6 +428,8 @@ def exact(t):
 
 
 def num(v):
+    if v is None:
+        return Fraction(0)
     if isinstance(v, bool):
         return Fraction(1 if v else 0)
     if isinstance(v, str):
@@ -402,13 +438,15 @@ def num(v):
 
 
 def text(v):
+    if v is None:
+        return ''
     if isinstance(v, str):
         return v
     assert v.denominator == 1
     return str(v.numerator)
 
 
-def same(rec, expected):
+def same(rec, expected, exact_floats=False):
     """does the record returned by parse hold the expected exact value?"""
     if isinstance(expected, tuple) and expected[0] == 'err':
         return rec['error'] == expected[1] and rec['result'] is None
@@ -424,6 +462,8 @@ def same(rec, expected):
     if isinstance(r, int):
         return Fraction(r) == expected
     e = float(expected)
+    if exact_floats:
+        return r == e
     return abs(r - e) <= 1e-9 * max(1.0, abs(e))
 
 
@@ -439,6 +479,14 @@ def cases(rng, ctx):
               '1=1=1', '10/4', '.5+.25', '50%*4', '2^3+1', 'va+vb*v_c', 'A1*b2-$c$3', 'ID(2+3)*4', '1-(2-3)', '1/(2/4)',
               '2*(3+4)', '(2*3)+4', '1+2+3+4', '1*2*3*4', '7-4+2', '8/2*3', '1+-2', '3*(-2)', '1<>2', '1>=1', '1<=0']:
         out.append({'kind': 'formula', 'f': f})
+    # decimal literals on their own and against one another: every literal denotes exactly the nearest double
+    for _ in range((3000 if thorough else 400) * ctx['scale']):
+        a = ('num', 'dec', str(rng.randrange(0, 30)), '%0*d' % (rng.choice([1, 2, 2, 3]), rng.randrange(1, 1000) % (10 ** 3)))
+        if rng.random() < 0.5:
+            out.append({'kind': 'tree', 't': a, 'ws': rng.randrange(1 << 30)})
+        else:
+            b = ('num', 'dec', a[2], '%02d' % rng.randrange(1, 100)) if rng.random() < 0.5 else ('bin', '+', ('num', 'int', a[2], ''), ('num', 'dot', '', a[3]))
+            out.append({'kind': 'tree', 't': ('bin', rng.choice(['=', '<', '>', '<>']), a, b), 'ws': rng.randrange(1 << 30)})
     _ERRS[0] = True
     try:
         for _ in range(n):
@@ -551,8 +599,10 @@ def oracle(c, impl_ans):
         expected = exact(t)
     except ErrVal as e:
         expected = ('err', e.code)
+    # when every intermediate value of the tree is a double, binary floating point computes the tree exactly: no tolerance
+    ef = float_exact(t)
     for f, tree, rec in impl_ans:
-        if not same(rec, expected):
+        if not same(rec, expected, ef):
             return 'formula %r evaluates to %r; the usual reading of its tree gives %r (renderings: %r)' % (
                 f, rec, expected if not isinstance(expected, Fraction) else float(expected), [x[0] for x in impl_ans])
     return None
